@@ -137,11 +137,11 @@ def swap0 (rows : List (List α)) (p : Nat) : List (List α) :=
 
 /-- forward phase on the remaining rows (each row holds the entries from the current column on):
     returns the ill-conditioning flag and the normalised pivot rows -/
-def elim : Nat → List (List α) → Except KSt (Bool × List (List α))
-  | 0, _ => .ok (false, [])
+def elim : Nat → List (List α) → Option (Bool × List (List α))
+  | 0, _ => some (false, [])
   | fuel + 1, rows =>
     match swap0 rows (pivotRow rows) with
-    | [] => .ok (false, [])
+    | [] => some (false, [])
     | prow :: others =>
       let pivot := prow.headD lit0
       if prow.all (fun x => Scalar.divisible x pivot) then
@@ -151,30 +151,31 @@ def elim : Nat → List (List α) → Except KSt (Bool × List (List α))
           let factor := r.headD lit0
           (List.zipWith (fun x y => x -. y *. factor) r nrow).tail)
         match elim fuel others' with
-        | .error e => .error e
-        | .ok (ill', ps) => .ok (ill || ill', nrow :: ps)
-      else .error .divZero
+        | none => none
+        | some (ill', ps) => some (ill || ill', nrow :: ps)
+      else none
 
 /-- back substitution over the normalised pivot rows `d :: u ++ [c]`, bottom row first -/
-def backSub : List (List α) → Except KSt (List α)
-  | [] => .ok []
+def backSub : List (List α) → Option (List α)
+  | [] => some []
   | p :: ps =>
     match backSub ps with
-    | .error e => .error e
-    | .ok xs =>
+    | none => none
+    | some xs =>
       let d := p.headD lit0
       let rest := p.tail
       let rhs := (List.zip rest xs).foldl (fun acc ux => acc -. ux.1 *. ux.2) (rest.getD xs.length lit0)
-      if Scalar.divisible rhs d then .ok ((rhs /. d) :: xs) else .error .divZero
+      if Scalar.divisible rhs d then some ((rhs /. d) :: xs) else none
 
-/-- `ref_matrix_solve_ab(rows, rows+1, ab)` on the list of rows: status and the solution column -/
-def solveAb (ab : List (List α)) : Except KSt (Bool × List α) :=
+/-- `ref_matrix_solve_ab(rows, rows+1, ab)` on the list of rows: `none` = `REF_DIV_ZERO` (the only error it
+    returns), else the ill-conditioning flag and the solution column -/
+def solveAb (ab : List (List α)) : Option (Bool × List α) :=
   match elim ab.length ab with
-  | .error e => .error e
-  | .ok (ill, ps) =>
+  | none => none
+  | some (ill, ps) =>
     match backSub ps with
-    | .error e => .error e
-    | .ok x => .ok (ill, x)
+    | none => none
+    | some x => some (ill, x)
 
 /-! ### the least-squares chain -/
 
@@ -191,8 +192,8 @@ def lsq (n : Nat) (rows : List (List α)) (b : List α) : KSt × List α :=
   | some (Q, R) =>
     let c := Q.map (fun qj => dotl qj b)
     match solveAb (augment 0 R c) with
-    | .error e => (e, [])
-    | .ok (ill, x) => if ill then (.illConditioned, []) else (.ok, x)
+    | none => (.divZero, [])
+    | some (ill, x) => if ill then (.illConditioned, []) else (.ok, x)
 
 def zero6 : M6 α := ⟨lit0, lit0, lit0, lit0, lit0, lit0⟩
 
